@@ -44,24 +44,22 @@ class ClientRoles:
                 self.foreign_send.append((f, c))
         self.sock_attr = self._sock_attr()
         self.sender = self._one(self.send_sites, rule, "command sender (method calling sendall)")
-        # readers
+        # readers: the block reader passes one of its parameters to recv; the
+        # line reader searches the CRLF delimiter.  Other recv callers fill no
+        # role (ownership rule M1 reports them).
         self.block_reader = None
         self.line_reader = None
-        for name in self.recv_sites:
+        for name in sorted(self.recv_sites):
             f = m[name]
             params = f.params[1:]
-            if any(self._mentions_param(c, params) for c in self.recv_sites[name]) and params:
+            if params and self.block_reader is None:
                 self.block_reader = f
-            else:
+        for name in sorted(self.recv_sites):
+            f = m[name]
+            if f is self.block_reader:
+                continue
+            if self._mentions_delimiter(f) and self.line_reader is None:
                 self.line_reader = f
-        if self.block_reader is None or self.line_reader is None:
-            # fall back: a block reader takes a size parameter
-            for name in self.recv_sites:
-                f = m[name]
-                if len(f.params) > 1 and self.block_reader is None and f is not self.line_reader:
-                    self.block_reader = f
-                elif len(f.params) == 1 and self.line_reader is None and f is not self.block_reader:
-                    self.line_reader = f
         if self.block_reader is None or self.line_reader is None:
             raise AnalysisError(rule, "cannot identify the line reader and the block reader among recv callers %s"
                                 % sorted(self.recv_sites))
@@ -125,6 +123,14 @@ class ClientRoles:
                         if isinstance(t, ast.Attribute):
                             return t.attr
         return "sock"
+
+    def _mentions_delimiter(self, f):
+        for n in ast.walk(f.node):
+            if isinstance(n, ast.Name) and n.id == "CRLF":
+                return True
+            if isinstance(n, ast.Constant) and n.value == b"\r\n":
+                return True
+        return False
 
     def _mentions_param(self, call, params):
         for a in call.args:
